@@ -90,6 +90,21 @@ theorem R.local_of_frame_prefix {α : Type} {r : R α} (hf : R.Frame r) (hp : R.
   obtain ⟨c, h1, h2⟩ := hp bs a rest e
   exact ⟨c, h1, fun y => by simpa using hf c a [] y h2⟩
 
+/-- `Frame` alone is closed under sequencing -/
+theorem R.Frame.bind {α β : Type} {r : R α} {k : α → R β} (hr : R.Frame r) (hk : ∀ a, R.Frame (k a)) :
+    R.Frame (fun bs => match r bs with
+      | .error e => .error e
+      | .ok (a, rest) => k a rest) := by
+  intro bs b rest x e
+  simp only at e
+  cases h1 : r bs with
+  | error err => rw [h1] at e; cases e
+  | ok p =>
+    obtain ⟨a, r1⟩ := p
+    rw [h1] at e; simp only at e
+    simp only [hr bs a r1 x h1]
+    exact hk a r1 b rest x e
+
 /-- sequencing (the `match … with | .error e => .error e | .ok (a, r) => k a r` idiom of the model) -/
 theorem R.Trunc.bind {α β : Type} {r : R α} {k : α → R β} (hr : R.Trunc r) (hk : ∀ a, R.Trunc (k a)) :
     R.Trunc (fun bs => match r bs with
